@@ -15,7 +15,7 @@ if os.path.exists(p):
             base[t[1]] = t[2].split("=")[1]
 out = ["# Detection matrix: every quick check against every own mutant and every seeded change", "",
        "Produced by `mutants/matrix.sh` (isolated copy of /repo and of the harness) and `tools/mkresults.py`.",
-       "Cell = exit code of `./check <id> quick` equivalent: 1 = VIOLATION reported, 0 = no violation, 3/4/124/134 = machinery failure (build error, watchdog, abort of the code under test).",
+       "Cell = exit code of `./check <id> quick` equivalent: 1 = VIOLATION reported, 0 = no violation, 3/4/124/134 = machinery failure (build error, watchdog, abort of the code under test), - = not run (seeded changes are run against their owner and C01, C03, C07, C09, C11, C12; own mutants against all 18).",
        "`owner` is the property the change was written for. `baseline` (own mutants) says whether the crate's own 34 tests still pass with the change (a change that fails them is uninformative and kept only for the record).", ""]
 hdr = "| change | owner | baseline | caught by | " + " | ".join(ids) + " |"
 out += [hdr, "|" + "---|" * (4 + len(ids))]
